@@ -735,3 +735,20 @@ package interpreter
 //@   modifies nothing
 //@ func (MonetaryInt).MarshalJSON
 //@   modifies nothing
+
+// ---------------------------------------------------------------- C07, BOUNDED stand-in (not a proof): the pairing order
+// for 2 senders x 2 receivers.  The expected flows are the overlaps of the intervals the two lists cut out of [0, total):
+// sender 1 owns [0, s1), sender 2 [s1, s1+s2); receiver 1 [0, r1), receiver 2 [r1, r1+r2).
+//@ spec ov(lo1, hi1, lo2, hi2) = max(0, min(hi1, hi2) - max(lo1, lo2))
+//@ spec flowOf(ps, a, b) = ite(len(ps) > 0 && ps[0].Source == a && ps[0].Destination == b, val(ps[0].Amount), 0) + ite(len(ps) > 1 && ps[1].Source == a && ps[1].Destination == b, val(ps[1].Amount), 0) + ite(len(ps) > 2 && ps[2].Source == a && ps[2].Destination == b, val(ps[2].Amount), 0) + ite(len(ps) > 3 && ps[3].Source == a && ps[3].Destination == b, val(ps[3].Amount), 0)
+//@ func reconcilePairing2x2
+//@   unroll 8
+//@   requires [amounts] s1 != nil && s2 != nil && r1 != nil && r2 != nil && val(s1) > 0 && val(s2) > 0 && val(r1) > 0 && val(r2) > 0 && s1 != s2 && s1 != r1 && s1 != r2 && s2 != r1 && s2 != r2 && r1 != r2
+//@   requires [balanced] val(s1) + val(s2) == val(r1) + val(r2)
+//@   let S1 = old(val(s1))
+//@   let S2 = old(val(s2))
+//@   let R1 = old(val(r1))
+//@   let R2 = old(val(r2))
+//@   ensures [at-most-four] {C07} len(result) <= 4
+//@   ensures [pairing-in-order] {C07} forallstr(a, b, b != KEPT_ADDR ==> flowOf(result, a, b) == ite(s1n == a && r1n == b, ov(0, S1, 0, R1), 0) + ite(s1n == a && r2n == b, ov(0, S1, R1, R1 + R2), 0) + ite(s2n == a && r1n == b, ov(S1, S1 + S2, 0, R1), 0) + ite(s2n == a && r2n == b, ov(S1, S1 + S2, R1, R1 + R2), 0))
+//@   ensures [kept-is-not-posted] {C07} forallstr(a, flowOf(result, a, KEPT_ADDR) == 0)
